@@ -193,6 +193,7 @@ def main(tier, seed):
     nb = 16 if tier == "quick" else 64
     batches = [{"cases": cases[i::nb]} for i in range(nb)]
     acc = harness.run_workers("checks.c05_outbound", "run_batch", batches, 3000)
+    harness.require_vnet_fidelity(acc)
     return harness.finish(PROP, tier, seed, "exploration", acc, RULE,
                           ["node-originated CER/CEA/DWR/DWA/DPR/DPA are legal in the outbound stream when they appear whole at message boundaries",
                            "vnet models Linux TCP send(): accepts a prefix or raises BlockingIOError",
